@@ -92,12 +92,12 @@ type Schema struct {
 }
 
 type Param struct {
-	Name     string    `json:"name"`
-	In       string    `json:"in"`
-	Required bool      `json:"required"`
-	Desc     string    `json:"desc"`
-	Chain    []*Simple `json:"chain"`
-	Schema   *Schema   `json:"schema"`
+	Name     string                 `json:"name"`
+	In       string                 `json:"in"`
+	Required bool                   `json:"required"`
+	Desc     string                 `json:"desc"`
+	Chain    []*Simple              `json:"chain"`
+	Schema   *Schema                `json:"schema"`
 	Ext      map[string]interface{} `json:"-"`
 }
 
@@ -120,6 +120,9 @@ type Operation struct {
 	Desc       string      `json:"desc"`
 	Params     []*Param    `json:"params"`
 	Responses  []*Response `json:"responses"`
+	// operation-level consumes (nil = absent); the analyser reads the document-level list only, and so does the Lean model
+	// (which ignores this field): rendered to Swagger for the catalogue edit `consumes(operation):remove`
+	OpConsumes []string               `json:"opConsumes,omitempty"`
 	Ext        map[string]interface{} `json:"-"`
 }
 
@@ -136,14 +139,14 @@ type DefKV struct {
 }
 
 type Spec struct {
-	Consumes []string    `json:"consumes"` // nil = absent
-	Produces []string    `json:"produces"`
-	Schemes  []string    `json:"schemes"`
-	Host     string      `json:"host"`
-	BasePath string      `json:"basePath"`
-	InfoDesc string      `json:"infoDesc"`
-	Paths    []*PathItem `json:"paths"`
-	Defs     []DefKV     `json:"defs"`
+	Consumes []string               `json:"consumes"` // nil = absent
+	Produces []string               `json:"produces"`
+	Schemes  []string               `json:"schemes"`
+	Host     string                 `json:"host"`
+	BasePath string                 `json:"basePath"`
+	InfoDesc string                 `json:"infoDesc"`
+	Paths    []*PathItem            `json:"paths"`
+	Defs     []DefKV                `json:"defs"`
 	Ext      map[string]interface{} `json:"-"`
 	// info.contact / info.license present (without extensions: the analyser looks only at their x- members, so presence
 	// must change nothing — and must not crash it); outside the Lean model
@@ -347,6 +350,9 @@ func (s *Spec) Render() map[string]interface{} {
 			}
 			if op.Tags != nil {
 				om["tags"] = op.Tags
+			}
+			if op.OpConsumes != nil {
+				om["consumes"] = op.OpConsumes
 			}
 			if op.Desc != "" {
 				om["description"] = op.Desc
